@@ -1,5 +1,5 @@
 (* C11 — printed statistics and listings describe the printed matching. *)
-From MP Require Import Spec.ResultsSpec Proofs.ResultsProofs LP.Oracle Proofs.LPSound Props.Examples.
+From MP Require Import Spec.ResultsSpec Proofs.ResultsProofs LP.Oracle Run.Session Proofs.LPSound Proofs.EndToEnd Props.Examples.
 Local Open Scope list_scope. Open Scope Z_scope.
 
 (* every quantity of the statistics block (matching line, size, costs, squared costs, degree, profile, max and
@@ -23,6 +23,16 @@ Theorem C11_assigned_pairs : forall (M : instance) (v : assignment),
   filter (fun q => negb (v (X (st q) (pr q)) =? 0)) (all_pairs M) = matched M (matching_of M v).
 Proof. exact assigned_is_matched. Qed.
 Print Assumptions C11_assigned_pairs.
+
+(* end to end: for any correct MILP back end, what get_results prints after '# matching statistics' for an Optimal
+   run is exactly the specification block of the (valid) matching the returned values denote *)
+Theorem C11_run_printed_block : forall M o solve out long,
+  wf M = true -> milp_ok M solve -> run M o solve = Ok out -> out_status out = Optimal ->
+  let m := matching_of M (val_fun (out_vals out)) in
+  stats_text M (concat (map (row_assigned (out_vals out)) (pairs M))) long = spec_stats_text M m long /\
+  valid_b (o_pc o) M m = true.
+Proof. exact run_printed_block. Qed.
+Print Assumptions C11_run_printed_block.
 
 Example C11_example :
   wf ex_inst = true /\ acceptable_rows (pairs ex_inst) [1; 0; 3] = true /\
